@@ -67,6 +67,35 @@ Definition cl_run (sched : list clev) : clst := fold_left cl_step sched cl_init.
 Definition is_do (e : clev) : bool := match e with CDo _ => true | _ => false end.
 Definition close_events (guarded : bool) (t : nat) : list clev := if guarded then [CDo t] else [CChk t; CCls t].
 
+(* ------------------------------------------------------------------ 2b. a reply channel that its requester closes *)
+(* The broker streams' Send makes a reply channel, hands it with the request to the stream goroutine, and closes it when it
+   returns (defer close(ch)).  The stream goroutine answers every request it took with one send on that channel (unbuffered:
+   the send completes when the requester receives).  Events: *)
+Inductive rqev :=
+| RqTake          (* the stream goroutine takes the request *)
+| RqReply         (* ... and delivers the reply; with a waiting requester this is the rendezvous after which Send returns *)
+| RqGiveUp.       (* the requester returns without the reply (broker closed) and closes the channel *)
+
+Record rqst := { q_taken : bool; q_replied : bool; q_closed : bool; q_panic : bool }.
+
+Definition rq_step (waits : bool) (s : rqst) (e : rqev) : rqst :=
+  match e with
+  | RqTake => {| q_taken := true; q_replied := q_replied s; q_closed := q_closed s; q_panic := q_panic s |}
+  | RqReply =>
+      if q_taken s && negb (q_replied s)
+      then if q_closed s
+           then {| q_taken := true; q_replied := true; q_closed := true; q_panic := true |}      (* send on closed channel *)
+           else {| q_taken := true; q_replied := true; q_closed := true; q_panic := q_panic s |}  (* received; Send returns; deferred close *)
+      else s
+  | RqGiveUp =>
+      (* only a requester that does not insist on the reply can take this way out, and only while it has not returned yet *)
+      if waits || q_closed s then s
+      else {| q_taken := q_taken s; q_replied := q_replied s; q_closed := true; q_panic := q_panic s |}
+  end.
+
+Definition rq_init : rqst := {| q_taken := false; q_replied := false; q_closed := false; q_panic := false |}.
+Definition rq_run (waits : bool) (sched : list rqev) : rqst := fold_left (rq_step waits) sched rq_init.
+
 (* ------------------------------------------------------------------ 3. mutex discipline *)
 (* Traces are written NEWEST EVENT FIRST: consing an event extends the execution in time. *)
 Inductive ev :=
